@@ -45,6 +45,24 @@ def receiveStep (s : RState) : RecvClass × RState :=
     | .endOK :: rest => (.eof, { stored := some (codeUnknown, true), items := rest })
     | .endErr c :: rest => (.fail c, { stored := some (c, false), items := rest })
 
+/-- the pinned tree, for a response with `Grpc-Status` among its headers: the branch of
+    `grpcClientConn.Receive` that returns the error of such a response did not record it -/
+def receiveStepTrailersOnlyPinned (s : RState) : RecvClass × RState :=
+  match s.stored with
+  | some (_, true) => (.eof, s)
+  | some (c, false) => (.fail c, s)
+  | none =>
+    match s.items with
+    | [] => (.eof, s)
+    | .ok m :: rest => (.msg m, { s with items := rest })
+    | .bad c :: rest => (.fail c, { s with items := rest })          -- not stored
+    | .endOK :: rest => (.eof, { s with items := rest })
+    | .endErr c :: rest => (.fail c, { stored := some (c, false), items := rest })
+
+def receiveManyTrailersOnlyPinned : Nat → RState → List RecvClass
+  | 0, _ => []
+  | n + 1, s => (receiveStepTrailersOnlyPinned s).1 :: receiveManyTrailersOnlyPinned n (receiveStepTrailersOnlyPinned s).2
+
 /-- `n` consecutive `Receive` calls -/
 def receiveMany : Nat → RState → List RecvClass
   | 0, _ => []
@@ -70,8 +88,27 @@ def classifyItem (dec : Bytes → Option WireErr) (undecodable : Bytes → Bool)
      | _ => .endErr codeInternal)
   | _ => .bad codeInternal
 
+/-- a response that carries `Grpc-Status` among its *headers* (what gRPC calls trailers-only):
+    an error there fails the call at once; with status 0 `Receive` hands out whatever reading
+    the body that nevertheless follows gives - messages, failures, and the end of the body or a
+    trailer frame as the clean end (the HTTP trailers and the frame's content are not looked
+    at) - and every failure is recorded like any other (fix F42) -/
+def toRItemsTrailersOnly (dec : Bytes → Option WireErr) (undecodable : Bytes → Bool) (cfg : CCfg) (enc : Option Compressor)
+    (r : Resp) : List RItem :=
+  match grpcErrorFromTrailer dec r.header with
+  | .serverErr w => [.endErr w.code]
+  | .protocolErr => [.endErr codeInternal]
+  | _ =>
+    r.body.map (fun it =>
+      match it with
+      | .webTrailer _ => if cfg.proto = .grpcWeb then .endOK else classifyItem dec undecodable cfg enc it
+      | _ => classifyItem dec undecodable cfg enc it) ++ [.endOK]
+
 def toRItems (dec : Bytes → Option WireErr) (undecodable : Bytes → Bool) (cfg : CCfg) (enc : Option Compressor)
     (r : Resp) : List RItem :=
+  if cfg.proto ≠ .connect ∧ (mergeHeaders [] r.header).get Gen.hdrGrpcStatus ≠ [] then
+    toRItemsTrailersOnly dec undecodable cfg enc r
+  else
   let items := r.body.map (classifyItem dec undecodable cfg enc)
   match cfg.proto with
   | .grpc =>
